@@ -1,8 +1,9 @@
 #!/bin/sh
 # usage: run_seeded.sh <patch.diff> <prop id>...   applies a seeded change to /repo, runs the checks, reverts
 patch="$1"; shift
+if [ -n "$(git -C /repo status --porcelain)" ]; then echo "refusing: /repo has uncommitted changes"; exit 3; fi
 git -C /repo apply "$patch" || { echo "patch does not apply"; exit 3; }
 for id in "$@"; do
   ./check "$id" --no-evidence 2>&1 | grep -E "^VIOLATION|^CHECK-BROKEN|^property=|failed obligation" | head -12
 done
-git -C /repo checkout -- . 
+git -C /repo checkout -- .
